@@ -29,14 +29,14 @@ Definition recovered (d : dstate) (n : brec) (r : list seg) (k : nat) : dstate :
 Lemma recover_shape : forall d d',
   dstep d DRecover = Some d' ->
   exists n r,
-    d_up d = false /\ newest (d_bolt d) = Some n /\ rec_root (d_segdocs d) (br_segs n) = Some r
+    d_up d = false /\ newest (d_bolt d) = Some n /\ rec_root (d_segdocs d) (sort_segs (br_segs n)) = Some r
     /\ (forall id, In id (named_by n) -> In id (d_files d))
     /\ d' = recovered d n r (covered d).
 Proof.
   intros d d' H. cbn [dstep] in H.
   destruct (d_up d) eqn:Hup; [discriminate|].
   destruct (newest (d_bolt d)) as [n|] eqn:En; [|discriminate].
-  destruct (rec_root (d_segdocs d) (br_segs n)) as [r|] eqn:Hr; [|discriminate].
+  destruct (rec_root (d_segdocs d) (sort_segs (br_segs n))) as [r|] eqn:Hr; [|discriminate].
   match type of H with (if ?c then _ else _) = _ => destruct c eqn:Hf end; [|discriminate].
   injection H as H. exists n, r. split; [reflexivity|]. split; [reflexivity|]. split; [exact Hr|].
   split; [exact (forallb_mem_In _ _ Hf)|].
@@ -56,8 +56,13 @@ Proof.
   intros ef d d' I H.
   destruct (recover_shape d d' H) as [n [r [Hup [En [Hr [Hfiles Hd']]]]]]. subst d'.
   assert (Hn : In n (d_bolt d)) by exact (newest_In _ _ En).
-  destruct (di_bolt ef d I n Hn) as [Hen [Hndn [Hndi [rr [k [Hrr [Hk [Hcont Hndl]]]]]]]].
-  rewrite Hr in Hrr. injection Hrr as Hrr. subst rr.
+  destruct (di_bolt ef d I n Hn) as [Hen [Hndn [Hndi [rr [k [Hrr [Hk [Hcont0 Hndl0]]]]]]]].
+  destruct (rec_root_sorted _ _ rr Hrr Hndl0) as [rs [Hrs [_ [Hndl Hlk]]]].
+  rewrite Hr in Hrs. injection Hrs as Hrs. subst rs.
+  assert (Hcont : forall id, root_lookup r id = replay (firstn k ef) id).
+  { intros id. rewrite Hlk. apply Hcont0. }
+  assert (Hsids : forall x, In x (map fst (sort_segs (br_segs n))) -> In x (named_by n)).
+  { intros x Hx. exact (Permutation_in x (sort_segs_named (br_segs n)) Hx). }
   assert (Hcov : covered d = k). { unfold covered. rewrite En, Hk. reflexivity. }
   rewrite Hcov.
   assert (Hkle : (k <= length ef)%nat) by exact (di_nble ef d I _ k Hen Hk).
@@ -88,8 +93,9 @@ Proof.
   - symmetry. exact Hlen.
   - (* Inv of the recovered core state *)
     intros _. constructor; cbn [root internal inflight used_sids all_tnew all_caps flat_map].
-    + rewrite (rec_root_sids _ _ _ Hr). exact Hndn.
-    + intros x Hx. rewrite (rec_root_sids _ _ _ Hr) in Hx. exact (Hnamed n x Hn Hx).
+    + rewrite (rec_root_sids _ _ _ Hr).
+      exact (Permutation_NoDup (Permutation_sym (sort_segs_named (br_segs n))) Hndn).
+    + intros x Hx. rewrite (rec_root_sids _ _ _ Hr) in Hx. exact (Hnamed n x Hn (Hsids x Hx)).
     + constructor.
     + intros x [].
     + intros x [].
@@ -100,7 +106,7 @@ Proof.
     + exact Hndl.
     + exact Hndi.
   - intros _ id. apply Hcont.
-  - intros _ id Hid. rewrite (rec_root_file_segs _ _ _ Hr) in Hid. exact (Hnamed n id Hn Hid).
+  - intros _ id Hid. rewrite (rec_root_file_segs _ _ _ Hr) in Hid. exact (Hnamed n id Hn (Hsids id Hid)).
   - (* di_pub *)
     intros e ri He Hri. destruct (Z.eq_dec e (br_epoch n)) as [Heq|Hne].
     + subst e. rewrite assocZ_cons_eq in Hri. injection Hri as Hri. subst ri.
